@@ -644,6 +644,8 @@ def _nonempty_fact(atom, pol):
         if t[0] == 'attr' and t[2] == 'size':
             return t[1][1] if (t[1][0] == 'attr' and t[1][2] == 'values') else t[1]
         return None
+    if atom[0] == 'unop' and atom[1] == 'not':
+        return _nonempty_fact(atom[2], not pol) if isinstance(pol, bool) else None
     if atom[0] != 'cmp':
         return None
     op, a, b = atom[1], atom[2], atom[3]
